@@ -701,6 +701,198 @@ Proof.
   - split; [exact H0|]. apply H1. apply tower_on_col. exact Htow.
 Qed.
 
+(* ================================================================ any tower position: window j0 .. j0+n-1 with 2 j0 + n - 1 = m *)
+
+(* sum of w(j) over the rows j = j0 .. j0 + n - 1 *)
+Definition rsum (j0 : Z) (n : nat) (w : Z -> C) : C :=
+  csum O (map (fun t => w (j0 + Z.of_nat t)%Z) (seq 0 n)).
+
+Lemma rsum_ext j0 n w1 w2 :
+  (forall j, (j0 <= j < j0 + Z.of_nat n)%Z -> w1 j = w2 j) -> rsum j0 n w1 = rsum j0 n w2.
+Proof.
+  intros H. unfold rsum. apply (csum_map_ext O L). intros t Ht. apply in_seq in Ht. apply H. lia.
+Qed.
+
+Lemma rsum_add j0 n w1 w2 : rsum j0 n (fun j => w1 j + w2 j) = rsum j0 n w1 + rsum j0 n w2.
+Proof. unfold rsum. apply (csum_map_add O L). Qed.
+
+Lemma rsum_scale j0 n s w : rsum j0 n (fun j => s * w j) = s * rsum j0 n w.
+Proof. unfold rsum. apply (csum_map_scale O L). Qed.
+
+Lemma rsum_odd_zero j0 n m (S : Z -> C) :
+  (2 * j0 + Z.of_nat n - 1 = m)%Z ->
+  (forall j, (j0 <= j < j0 + Z.of_nat n)%Z -> S (m - j)%Z = S j) ->
+  rsum j0 n (fun j => ofZ (2 * j - m) * S j) = 0.
+Proof.
+  intros Hm Hev. set (X := rsum j0 n (fun j => ofZ (2 * j - m) * S j)).
+  assert (H2 : X + X = 0).
+  { unfold X at 1. unfold rsum.
+    rewrite <- (csum_rev O L n (fun t => ofZ (2 * (j0 + Z.of_nat t) - m) * S (j0 + Z.of_nat t)%Z)).
+    unfold X, rsum. rewrite <- (csum_map_add O L).
+    rewrite <- (csum_map_zero O L (seq 0 n)). apply (csum_map_ext O L).
+    intros t Ht. apply in_seq in Ht.
+    replace (j0 + Z.of_nat (n - 1 - t))%Z with (m - (j0 + Z.of_nat t))%Z by lia.
+    rewrite Hev by lia.
+    replace (2 * (m - (j0 + Z.of_nat t)) - m)%Z with (- (2 * (j0 + Z.of_nat t) - m))%Z by lia.
+    rewrite (L_ofZ_opp O L). ring. }
+  transitivity (1 / (1 + 1) * (X + X)); [field; apply (two_nz O L)|]. rewrite H2. ring.
+Qed.
+
+Lemma cyc0_mirror (n : nat) (m j : Z) : n <> 0%nat ->
+  ((Z.of_nat (cyc n 0 (m - j)) + Z.of_nat (cyc n 0 j)) mod Z.of_nat n = m mod Z.of_nat n)%Z.
+Proof.
+  intros Hn. unfold cyc. rewrite !Z2Nat.id by (apply Z.mod_pos_bound; lia).
+  rewrite <- Zplus_mod. f_equal. lia.
+Qed.
+
+(* rows j0 .. j0+n-1 (cyclically on the padded grid), a window symmetric about the tower: 2 j0 + n - 1 = m;
+   sum (2 j - m) S_j = 0, and in coordinates sum y_j S_j = ym sum S_j whenever 2 ym = m dy *)
+Lemma moment_rows_any (g : geom) (F : list (list (list C))) (k : nat) (j0 : Z) (n : nat) (m : Z) (cols : list nat) :
+  g_nye O g <> 0%nat -> (2 * j0 + Z.of_nat n - 1 = m)%Z ->
+  (forall j j' i, (j < g_ny O g)%nat -> (j' < g_ny O g)%nat -> (i < g_nx O g)%nat ->
+     mirror_rows g m j j' -> get3 O F k j i = get3 O F k j' i) ->
+  (forall j, (j0 <= j < j0 + Z.of_nat n)%Z -> (cyc (g_nye O g) 0 j < g_ny O g)%nat) ->
+  (forall i, In i cols -> (i < g_nx O g)%nat) ->
+  let S := fun j : Z => csum O (map (fun i => get3 O F k (cyc (g_nye O g) 0 j) i) cols) in
+  rsum j0 n (fun j => ofZ (2 * j - m) * S j) = 0 /\
+  (forall ym dy, (1 + 1) * ym = ofZ m * dy ->
+     rsum j0 n (fun j => ofZ j * dy * S j) = ym * rsum j0 n S).
+Proof.
+  intros Hye0 Hm Hsym Hwin Hcols S.
+  assert (H0 : rsum j0 n (fun j => ofZ (2 * j - m) * S j) = 0).
+  { apply (rsum_odd_zero j0 n m S Hm). intros j Hj. unfold S. apply (csum_map_ext O L). intros i Hi.
+    apply Hsym; [apply Hwin; lia|apply Hwin; lia|apply Hcols; exact Hi|].
+    unfold mirror_rows. apply cyc0_mirror. exact Hye0. }
+  split; [exact H0|]. intros ym dy Hy.
+  assert (E : (1 + 1) * rsum j0 n (fun j => ofZ j * dy * S j) = (1 + 1) * (ym * rsum j0 n S)).
+  { rewrite <- rsum_scale.
+    rewrite (rsum_ext j0 n _ (fun j => dy * (ofZ (2 * j - m) * S j) + (ofZ m * dy) * S j)).
+    2:{ intros j _. unfold Z.sub. rewrite (L_ofZ_add O L), (L_ofZ_mul O L), (L_ofZ_opp O L), (ofZ_2 O L). ring. }
+    rewrite rsum_add, !rsum_scale, H0, <- Hy. ring. }
+  transitivity (1 / (1 + 1) * ((1 + 1) * rsum j0 n (fun j => ofZ j * dy * S j))); [field; apply (two_nz O L)|].
+  rewrite E. field. apply (two_nz O L).
+Qed.
+
+Lemma moment_cols_any (g : geom) (F : list (list (list C))) (k : nat) (i0 : Z) (n : nat) (m : Z) (rows : list nat) :
+  g_nxe O g <> 0%nat -> (2 * i0 + Z.of_nat n - 1 = m)%Z ->
+  (forall j i i', (j < g_ny O g)%nat -> (i < g_nx O g)%nat -> (i' < g_nx O g)%nat ->
+     mirror_cols g m i i' -> get3 O F k j i = get3 O F k j i') ->
+  (forall i, (i0 <= i < i0 + Z.of_nat n)%Z -> (cyc (g_nxe O g) 0 i < g_nx O g)%nat) ->
+  (forall j, In j rows -> (j < g_ny O g)%nat) ->
+  let S := fun i : Z => csum O (map (fun j => get3 O F k j (cyc (g_nxe O g) 0 i)) rows) in
+  rsum i0 n (fun i => ofZ (2 * i - m) * S i) = 0 /\
+  (forall xm dx, (1 + 1) * xm = ofZ m * dx ->
+     rsum i0 n (fun i => ofZ i * dx * S i) = xm * rsum i0 n S).
+Proof.
+  intros Hxe0 Hm Hsym Hwin Hrows S.
+  assert (H0 : rsum i0 n (fun i => ofZ (2 * i - m) * S i) = 0).
+  { apply (rsum_odd_zero i0 n m S Hm). intros i Hi. unfold S. apply (csum_map_ext O L). intros j Hj.
+    apply Hsym; [apply Hrows; exact Hj|apply Hwin; lia|apply Hwin; lia|].
+    unfold mirror_cols. apply cyc0_mirror. exact Hxe0. }
+  split; [exact H0|]. intros xm dx Hx.
+  assert (E : (1 + 1) * rsum i0 n (fun i => ofZ i * dx * S i) = (1 + 1) * (xm * rsum i0 n S)).
+  { rewrite <- rsum_scale.
+    rewrite (rsum_ext i0 n _ (fun i => dx * (ofZ (2 * i - m) * S i) + (ofZ m * dx) * S i)).
+    2:{ intros i _. unfold Z.sub. rewrite (L_ofZ_add O L), (L_ofZ_mul O L), (L_ofZ_opp O L), (ofZ_2 O L). ring. }
+    rewrite rsum_add, !rsum_scale, H0, <- Hx. ring. }
+  transitivity (1 / (1 + 1) * ((1 + 1) * rsum i0 n (fun i => ofZ i * dx * S i))); [field; apply (two_nz O L)|].
+  rewrite E. field. apply (two_nz O L).
+Qed.
+
+(* the returned array is exactly symmetric: odd retained count, or full spectrum with the tower on a grid line *)
+Definition exact_y_at (g : geom) (m : Z) : Prop :=
+  Nat.odd (g_nly O g) = true \/ (g_nly O g = g_nye O g /\ Z.even m = true).
+Definition exact_x_at (g : geom) (m : Z) : Prop :=
+  Nat.odd (g_nlx O g) = true \/ (g_nlx O g = g_nxe O g /\ Z.even m = true).
+
+Theorem centroid_rows_any (a : args) (g : geom) sel k j0 n m cols :
+  (forall pq s, sel (fst pq * s, snd pq * s) = sel pq * s) ->
+  geometry O a = inl g -> a_footprint O a = true -> no_v a -> g_dy O g <> 0 ->
+  tower_y a g m -> exact_y_at g m -> (2 * j0 + Z.of_nat n - 1 = m)%Z -> n <> 0%nat ->
+  (k < length (a_levels O a))%nat ->
+  (forall j, (j0 <= j < j0 + Z.of_nat n)%Z -> (cyc (g_nye O g) 0 j < g_ny O g)%nat) ->
+  (forall i, In i cols -> (i < g_nx O g)%nat) ->
+  let S := fun j : Z => csum O (map (fun i =>
+              get3 O (field O a g sel (table O a g)) k (cyc (g_nye O g) 0 j) i) cols) in
+  rsum j0 n (fun j => ofZ (2 * j - m) * S j) = 0 /\
+  rsum j0 n (fun j => ofZ j * g_dy O g * S j) = a_ym O a * rsum j0 n S.
+Proof.
+  intros Hsel Hg Hfp Hv Hdy Htow Hex Hm Hn Hk Hwin Hcols.
+  assert (Hye0 : g_nye O g <> 0%nat).
+  { destruct (geometry_inv O L a g Hg) as (_ & _ & _ & _ & _ & _ & Eye & _).
+    pose proof (Hwin j0 ltac:(lia)). lia. }
+  destruct (moment_rows_any g (field O a g sel (table O a g)) k j0 n m cols Hye0 Hm) as [H0 H1]; try assumption.
+  - intros j j' i Hj Hj' Hi Hmr. destruct Hex as [Ho|[Hfull Hev]].
+    + apply (axis_y_cells_odd a g sel k j j' i m); assumption.
+    + apply (axis_y_cells_full a g sel k j j' i m); assumption.
+  - split; [exact H0|]. apply H1. exact Htow.
+Qed.
+
+Theorem centroid_rows_any_noNyq (a : args) (g : geom) sel k j0 n m cols :
+  (forall pq s, sel (fst pq * s, snd pq * s) = sel pq * s) ->
+  geometry O a = inl g -> a_footprint O a = true -> no_v a -> g_dy O g <> 0 ->
+  tower_y a g m -> (2 * j0 + Z.of_nat n - 1 = m)%Z -> n <> 0%nat ->
+  (k < length (a_levels O a))%nat ->
+  (forall j, (j0 <= j < j0 + Z.of_nat n)%Z -> (cyc (g_nye O g) 0 j < g_ny O g)%nat) ->
+  (forall i, In i cols -> (i < g_nx O g)%nat) ->
+  let S := fun j : Z => csum O (map (fun i =>
+              get3 O (field O a g sel (table_noNyq_y O a g)) k (cyc (g_nye O g) 0 j) i) cols) in
+  rsum j0 n (fun j => ofZ (2 * j - m) * S j) = 0 /\
+  rsum j0 n (fun j => ofZ j * g_dy O g * S j) = a_ym O a * rsum j0 n S.
+Proof.
+  intros Hsel Hg Hfp Hv Hdy Htow Hm Hn Hk Hwin Hcols.
+  assert (Hye0 : g_nye O g <> 0%nat).
+  { destruct (geometry_inv O L a g Hg) as (_ & _ & _ & _ & _ & _ & Eye & _).
+    pose proof (Hwin j0 ltac:(lia)). lia. }
+  destruct (moment_rows_any g (field O a g sel (table_noNyq_y O a g)) k j0 n m cols Hye0 Hm) as [H0 H1]; try assumption.
+  - intros j j' i Hj Hj' Hi Hmr. apply (axis_y_cells a g sel k j j' i m); assumption.
+  - split; [exact H0|]. apply H1. exact Htow.
+Qed.
+
+Theorem centroid_cols_any (a : args) (g : geom) sel k i0 n m rows :
+  (forall pq s, sel (fst pq * s, snd pq * s) = sel pq * s) ->
+  geometry O a = inl g -> a_footprint O a = true -> no_u a -> g_dx O g <> 0 ->
+  tower_x a g m -> exact_x_at g m -> (2 * i0 + Z.of_nat n - 1 = m)%Z -> n <> 0%nat ->
+  (k < length (a_levels O a))%nat ->
+  (forall i, (i0 <= i < i0 + Z.of_nat n)%Z -> (cyc (g_nxe O g) 0 i < g_nx O g)%nat) ->
+  (forall j, In j rows -> (j < g_ny O g)%nat) ->
+  let S := fun i : Z => csum O (map (fun j =>
+              get3 O (field O a g sel (table O a g)) k j (cyc (g_nxe O g) 0 i)) rows) in
+  rsum i0 n (fun i => ofZ (2 * i - m) * S i) = 0 /\
+  rsum i0 n (fun i => ofZ i * g_dx O g * S i) = a_xm O a * rsum i0 n S.
+Proof.
+  intros Hsel Hg Hfp Hu Hdx Htow Hex Hm Hn Hk Hwin Hrows.
+  assert (Hxe0 : g_nxe O g <> 0%nat).
+  { destruct (geometry_inv O L a g Hg) as (_ & _ & _ & _ & _ & Exe & _).
+    pose proof (Hwin i0 ltac:(lia)). lia. }
+  destruct (moment_cols_any g (field O a g sel (table O a g)) k i0 n m rows Hxe0 Hm) as [H0 H1]; try assumption.
+  - intros j i i' Hj Hi Hi' Hmc. destruct Hex as [Ho|[Hfull Hev]].
+    + apply (axis_x_cells_odd a g sel k j i i' m); assumption.
+    + apply (axis_x_cells_full a g sel k j i i' m); assumption.
+  - split; [exact H0|]. apply H1. exact Htow.
+Qed.
+
+Theorem centroid_cols_any_noNyq (a : args) (g : geom) sel k i0 n m rows :
+  (forall pq s, sel (fst pq * s, snd pq * s) = sel pq * s) ->
+  geometry O a = inl g -> a_footprint O a = true -> no_u a -> g_dx O g <> 0 ->
+  tower_x a g m -> (2 * i0 + Z.of_nat n - 1 = m)%Z -> n <> 0%nat ->
+  (k < length (a_levels O a))%nat ->
+  (forall i, (i0 <= i < i0 + Z.of_nat n)%Z -> (cyc (g_nxe O g) 0 i < g_nx O g)%nat) ->
+  (forall j, In j rows -> (j < g_ny O g)%nat) ->
+  let S := fun i : Z => csum O (map (fun j =>
+              get3 O (field O a g sel (table_noNyq O a g)) k j (cyc (g_nxe O g) 0 i)) rows) in
+  rsum i0 n (fun i => ofZ (2 * i - m) * S i) = 0 /\
+  rsum i0 n (fun i => ofZ i * g_dx O g * S i) = a_xm O a * rsum i0 n S.
+Proof.
+  intros Hsel Hg Hfp Hu Hdx Htow Hm Hn Hk Hwin Hrows.
+  assert (Hxe0 : g_nxe O g <> 0%nat).
+  { destruct (geometry_inv O L a g Hg) as (_ & _ & _ & _ & _ & Exe & _).
+    pose proof (Hwin i0 ltac:(lia)). lia. }
+  destruct (moment_cols_any g (field O a g sel (table_noNyq O a g)) k i0 n m rows Hxe0 Hm) as [H0 H1]; try assumption.
+  - intros j i i' Hj Hi Hi' Hmc. apply (axis_x_cells a g sel k j i i' m); assumption.
+  - split; [exact H0|]. apply H1. exact Htow.
+Qed.
+
 (* ================================================================ the hypotheses are satisfiable *)
 
 (* a 4 x 3 request (3 columns, 4 rows), no halo, wind along x, tower on grid row 1, all modes retained *)
@@ -734,6 +926,27 @@ Proof.
   - reflexivity.
   - cbn. lia.
   - intros d Hd. unfold ex_geom. cbn [g_nye g_ny]. apply (cyc_lt O L). lia.
+Qed.
+
+(* the same request with the tower half way between rows 1 and 2 (m = 3): rows 1 and 2 are mirror images, the window
+   of rows 1..2 is centred on the tower *)
+Definition ex_args_half : args := with_meas O ex_args 1 (ofZ 3 / ofZ 2).
+
+Lemma axis_example_half :
+  geometry O ex_args_half = inl ex_geom /\ a_footprint O ex_args_half = true /\ no_v ex_args_half /\
+  tower_y ex_args_half ex_geom 3 /\ mirror_rows ex_geom 3 1 2 /\ (2 * 1 + Z.of_nat 2 - 1 = 3)%Z /\
+  (forall j, (1 <= j < 1 + Z.of_nat 2)%Z -> (cyc (g_nye O ex_geom) 0 j < g_ny O ex_geom)%nat).
+Proof.
+  destruct axis_example as (Hg & Hfp & Hv & _).
+  split; [|split; [|split; [|split; [|split; [|split]]]]].
+  - rewrite <- Hg. apply (geometry_shape_only O L); reflexivity.
+  - reflexivity.
+  - exact Hv.
+  - unfold tower_y. cbn [a_ym ex_args_half with_meas g_dy ex_geom]. change (Z.of_nat 4) with 4%Z.
+    rewrite ex_cell by discriminate. rewrite (ofZ_2 O L), (ofZ_3 O L). field. apply (two_nz O L).
+  - reflexivity.
+  - reflexivity.
+  - intros j Hj. unfold ex_geom. cbn [g_nye g_ny]. apply (cyc_lt O L). lia.
 Qed.
 
 (* the theorems applied to the example: rows 0 and 2 of the returned flux footprint coincide, and the first moment
